@@ -356,7 +356,7 @@ func runC16(c *Ctx) {
 	checkMemFSListsByResolvedName(c, "R11")
 	// R10: the client ends a listing on a STATUS only when that STATUS is a failure or EOF (shared with C20.Z6): an
 	// SSH_FX_OK answer to READDIR read as success ends the listing early with a nil error
-	c.withRule("R10", func() { checkStatusCaseNextToDataCase(c, "Z6") })
+	c.withRule("R10", func() { checkStatusCaseNextToDataCase(c, "Z6", false) })
 
 	// ---------- R6 a batch of the request server fits the frame the client accepts ----------
 	// one NAME reply holds every entry ListAt delivered; its size is entries x (two copies of the name + attributes)
